@@ -12,1173 +12,1365 @@ Definition show_fres (r : fres) : string :=
   end.
 Definition check (rs : list rune) : string := digest (show_fres (format_res rs)).
 Definition full (rs : list rune) : string := show_fres (format_res rs).
-Eval vm_compute in ("<<<M1342>>>" ++ check (runes_of_ascii "// top
+Eval vm_compute in ("<<<M1350>>>" ++ check (runes_of_ascii "// top
+options // c0
+{ LittleEndian // c2a
+  // c2b
+= // c3a
+  // c3b
+false // c4a
+  // c4b
+; // c5
+FixedStringPadChar // c6
+= // c7a
+  // c7b
+' ' // c8
+;
+    // c9
+} // c10a
+  // c10b
+packet Fill // c12
+{
+    // c13
+InFlags6 {
+    // c15
+repeat
+    // c16
+u64 // c17
+count
+    // c18
+, }
+    // c20
+, // c21a
+  // c21b
+char[ 8
+    // c23
+] price // c25
+, repeat // c27
+char[ // c28
+2 ] lastPx
+    // c31
+,
+    // c32
+char[] count // c34a
+  // c34b
+, } // c36
+packet // c37a
+  // c37b
+Quote // c38
+{
+    // c39
+char[]
+    // c40
+Qty , int32 // c43a
+  // c43b
+sym ,
+    // c45
+zchar[ 9 // c47
+]
+    // c48
+Flags , int8 // c51a
+  // c51b
+tag7
+    // c52
+,
+    // c53
+char[ // c54a
+  // c54b
+7 ]
+    // c56
+count
+    // c57
+, // c58a
+  // c58b
+} // c59a
+  // c59b
+packet // c60
+Cancel // c61
+{ string // c63a
+  // c63b
+Acct // c64
+, @rightPad ( // c67
+'\x00' ) // c69
+char[ // c70a
+  // c70b
+2 // c71
+] Note
+    // c73
+, // c74a
+  // c74b
+zchar[
+    // c75
+5 // c76
+] Side2
+    // c78
+,
+    // c79
+} // c80a
+  // c80b
+packet // c81a
+  // c81b
+Trade { repeat
+    // c84
+Quote // c85a
+  // c85b
+,
+    // c86
+Fill
+    // c87
+,
+    // c88
+repeat
+    // c89
+i64 Side2 // c91a
+  // c91b
+,
+    // c92
+uint16
+    // c93
+Tail , zchar[ // c96
+7
+    // c97
+] OrderId
+    // c99
+, // c100
+}
+    // c101
+root // c102a
+  // c102b
+packet // c103
+Party
+    // c104
+{ repeat InLastpx79 { // c108a
+  // c108b
+char[ // c109
+12 // c110a
+  // c110b
+]
+    // c111
+Px // c112a
+  // c112b
+, int8 // c114a
+  // c114b
+Tail // c115a
+  // c115b
+, } // c117
+, f32
+    // c119
+count // c120
+,
+    // c121
+repeat
+    // c122
+u8 // c123a
+  // c123b
+Note // c124a
+  // c124b
+,
+    // c125
+Trade // c126a
+  // c126b
+, // c127a
+  // c127b
+f64
+    // c128
+venue // c129a
+  // c129b
+, // c130
+@rightPad ( // c132
+'\x00' ) char[
+    // c135
+11
+    // c136
+] // c137a
+  // c137b
+tag7 // c138
+, u16 // c140a
+  // c140b
+Px , // c142a
+  // c142b
+u32
+    // c143
+Side2 @lengthOf( // c145
+Body ) // c147
+, match // c149
+Px as // c151a
+  // c151b
+Body // c152
+{ [ // c154
+48 // c155a
+  // c155b
+, 188 ] // c158a
+  // c158b
+: Fill , // c161
+190
+    // c162
+: // c163a
+  // c163b
+Trade // c164a
+  // c164b
+, 160 // c166
+: Quote // c168a
+  // c168b
+,
+    // c169
+85 // c170
+:
+    // c171
+Cancel , } // c174
+,
+    // c175
+}
+    // c176
+")).
+Eval vm_compute in ("<<<M232>>>" ++ check (runes_of_ascii "// packet A { u8 x, }
+root packet rootA
+    {
+repeat char[]int
+    /// triple
+    `it's` , string asx @calculatedFrom(""a\""b"") //x
+`tab	here`	, falsey `` , repeat string
+    metadata ``
+//
+// " ++ [27880; 37322]%N ++ runes_of_ascii "
+,  match
+x
+    // @lengthOf(
+    as	chars{007 : lengthOf ""// no comment"" :o	,
+[ """ ++ [233]%N ++ runes_of_ascii "t" ++ [233]%N ++ runes_of_ascii """] //	t
+: len , [ 0123456789
+    ,
+    007 ,""" ++ [233]%N ++ runes_of_ascii "t" ++ [233]%N ++ runes_of_ascii """, // trailing space 
+42 , 0123456789
+, ""packet"" , 00	]
+    : x , } ,  match pack as int
+{ [ // a // b
+1
+    , ""a\""b""
+,
+    ""a\""b""	]:x
+,} ,
+} root packet	int
+    {
+char[10] len @lengthOf(	string_) , @calculatedFrom( ""1""
+) repeat
+    //	t
+    packetx {
+    char[ 42 ] Foo , a1 A  , repeat zchar[1  ] i8i8
+`a\` ,	zchar[
+4294967296 ]
+x_y_z@lengthOf( T )`` , }, char
+chars , repeat zchar[255 ] tag
+    `tab	here`
+,
+    @calculatedFrom(""it's"" //	t
+) // packet A { u8 x, }
+char[ 00 ] BodyLength
+//x
+// " ++ [128512]%N ++ runes_of_ascii " emoji
+``  ,
+//	t
+/// triple
+} packet asx
+    {zchar[
+255	]x
+@lengthOf(
+int)
+, } MetaData repeatCount{a1 Logon , u8x As
+, char[
+    /// triple
+    00	]// c
+metadata
+    `line1
+line2`, i32 Logon
+    `it's`,string falsey ,
+}
+    packet Z9_
+// trailing space 
+// " ++ [27880; 37322]%N ++ runes_of_ascii "
+{
+options1
+{ u32
+    MetaDataX
+, char[ 1]
+// " ++ [128512]%N ++ runes_of_ascii " emoji
+//x
+x	@lengthOf( Header ) ,	repeatCount
+    /// triple
+    x_y_z, } ,	float ,
+repeat packetx Z9_,@rightPad (
+// trailing space 
+// trailing space 
+' ' ) asx
+{string	asx @lengthOf( uint8x // c
+),	packetx , char[ 007 ] metadata ,  } ,
+    }
+")).
+Eval vm_compute in ("<<<M1458>>>" ++ check (runes_of_ascii "  packet rootA
+
+{ 
+    // a // b
+
+// " ++ [128512]%N ++ runes_of_ascii " emoji
+  @tag( 00 ) match 
+i8i8
+    as
+f32a{ 
+0: 
+u8x
+    , [
+
+    ""a\\""
+]
+:
+    BodyLength ,
+[ ""{,}""] 
+:body
+,
+
+    4294967296
+    : options1 
+,  // c
+    ""CRC32"" :	A 
+,	}  
+      // c
+
+	// " ++ [27880; 37322]%N ++ runes_of_ascii "
+	,	Logon 
+@lengthOf(T
+
+    )  , @lengthOf(stringy ) char[	0123456789
+    ]zchar
+,zchar[
+    1  ]
+
+i8i8 
+`it's`	,
+	@calculatedFrom(  
+      // 50% %s
+  // packet A { u8 x, }
+  ""1"" )
+	// `tick` ""quote"" 'q'
+
+repeat
+zchar[
+	42
+
+]
+A
+
+    `u8 x,` , 
+i16 
+A
+    @calculatedFrom(//
+	""packet"" 
+    // " ++ [128512]%N ++ runes_of_ascii " emoji
+/// triple
+)
+
+,/// triple
+@lengthOf( MetaDataX )
+match 
+
+    // " ++ [27880; 37322]%N ++ runes_of_ascii "
+	falsey
+    as 
+repeatCount
+{
+	0123456789
+:
+
+T
+, }	,
+@leftPad
+(	// " ++ [27880; 37322]%N ++ runes_of_ascii "
+  	'\x00'  )
+	@rightPad
+    ( '0'
+
+    )  @tag(
+0
+)
+
+    repeat 
+len
+
+    {
+
+    trueish
+
+rootA  `" ++ [28040; 24687; 31867; 22411]%N ++ runes_of_ascii "`,
+char[
+7 ] 
+repeatCount
+	@calculatedFrom(
+
+""// no comment""
+	)
+
+    , 
+string_ @calculatedFrom(
+    ""it's""
+	)
+	,	}
+	,
+repeat
+
+    Header
+    `say ""hi""`	,
+
+    //x
+
+	//x
+    match
+    packetx as
+	Packet  {  [
+    ""`tick`"" ] :
+    asx	7 :
+	asx
+[""a\\""]  // `tick` ""quote"" 'q'
+: 	 /// triple
+		float, ""packet"" :  lengthOf
+""x y"": len 
+,	}
+	,}
+
+")).
+Eval vm_compute in ("<<<M376>>>" ++ check (runes_of_ascii "packet
+    rootA
+{
+// a // b
+// " ++ [128512]%N ++ runes_of_ascii " emoji
+@tag( 00
+) match i8i8 as	f32a{ 0
+: u8x	,[ ""a\\""]: BodyLength ,[""{,}"" ]: body
+,4294967296 : options1, // c
+""CRC32""
+: A
+    ,}
+// c
+// " ++ [27880; 37322]%N ++ runes_of_ascii "
+,
+Logon
+    @lengthOf(
+T ) , @lengthOf( stringy)char[
+    0123456789]zchar ,	zchar[ 1] i8i8 `it's`, @calculatedFrom(
+// 50% %s
+// packet A { u8 x, }
+""1"" )
+    // `tick` ""quote"" 'q'
+    repeat zchar[
+42] A
+    `u8 x,` , i16 A @calculatedFrom( //
+""packet""
+// " ++ [128512]%N ++ runes_of_ascii " emoji
+/// triple
+) , /// triple
+@lengthOf( MetaDataX
+    ) match
+    // " ++ [27880; 37322]%N ++ runes_of_ascii "
+    falsey
+    as repeatCount { 0123456789:T, } ,@leftPad
+( // " ++ [27880; 37322]%N ++ runes_of_ascii "
+'\x00' ) @rightPad ( '0'
+) @tag(
+0 ) repeat len {
+trueish rootA`" ++ [28040; 24687; 31867; 22411]%N ++ runes_of_ascii "` ,
+    char[
+    7 ] repeatCount
+@calculatedFrom( ""// no comment""
+) , string_ @calculatedFrom( ""it's"" ) ,
+} , repeat Header `say ""hi""` ,
+//x
+//x
+match
+    packetx as Packet {[
+""`tick`""] :
+    asx 7	:
+    asx
+    [ ""a\\""	]// `tick` ""quote"" 'q'
+: /// triple
+float ,
+""packet"" :
+lengthOf ""x y"" : len , }  ,}")).
+Eval vm_compute in ("<<<M1154>>>" ++ check (runes_of_ascii "// top
 options
     // c0
 {
     // c1
-FixedStringPadFromLeft // c2a
-  // c2b
-= // c3a
-  // c3b
-true // c4
-; // c5
-FixedStringPadChar = // c7a
-  // c7b
-'0' // c8
-; } packet // c11
-Leg { // c13
-InPrice0 // c14a
-  // c14b
-{ // c15
-repeat string
-    // c17
-clOrdID // c18a
-  // c18b
-,
-    // c19
-int16 // c20
-msgKind ,
-    // c22
-zchar[
-    // c23
-5 // c24a
-  // c24b
-] // c25a
-  // c25b
-Px , }
-    // c28
-, // c29a
-  // c29b
-i16
-    // c30
-f1
-    // c31
-,
-    // c32
-repeat
-    // c33
-f64 Side2 // c35a
-  // c35b
-,
-    // c36
-string
-    // c37
-Acct , } // c40
-packet
-    // c41
-Cancel {
-    // c43
-zchar[ // c44
-4
-    // c45
-] // c46a
-  // c46b
-clOrdID // c47
-,
-    // c48
-string seqNo , Leg // c52a
-  // c52b
-, // c53
-@leftPad // c54a
-  // c54b
-(
-    // c55
-'0' // c56a
-  // c56b
-) char[ // c58a
-  // c58b
-11 // c59a
-  // c59b
-] OrderId // c61
-, }
-    // c63
-packet // c64
-Quote
-    // c65
-{
-    // c66
-repeat // c67a
-  // c67b
-char[ // c68a
-  // c68b
-4
-    // c69
-] // c70a
-  // c70b
-sym // c71a
-  // c71b
-,
-    // c72
-f64 // c73a
-  // c73b
-OrderId // c74
-, repeat // c76
-Leg , repeat
-    // c79
-i64
-    // c80
-f1 // c81a
-  // c81b
-, // c82
-int16 Note // c84a
-  // c84b
-, zchar[ // c86a
-  // c86b
-3
-    // c87
-] count // c89
-, } // c91
-root packet // c93
-Ack { // c95a
-  // c95b
-@leftPad // c96
-( ' ' // c98
-) // c99a
-  // c99b
-char[ 10 ] // c102a
-  // c102b
-sym , InPx60 // c105
-{
-    // c106
-Cancel // c107a
-  // c107b
-, // c108a
-  // c108b
-repeat char[ // c110
-1 ] // c112a
-  // c112b
-f1
-    // c113
-, // c114
-string
-    // c115
-Tail , repeat // c118
-InNote55
-    // c119
-{
-    // c120
-int8 // c121a
-  // c121b
-count // c122a
-  // c122b
-, // c123a
-  // c123b
-f64
-    // c124
-f1 // c125a
-  // c125b
-, // c126a
-  // c126b
-repeat
-    // c127
-Cancel
-    // c128
-,
-    // c129
-}
-    // c130
-, // c131
-char[] // c132a
-  // c132b
-tag7 ,
-    // c134
-repeat
-    // c135
-string // c136
-msgKind , // c138
-} // c139a
-  // c139b
-, // c140a
-  // c140b
-u8
-    // c141
-lastPx , match // c144
-lastPx // c145a
-  // c145b
-as Body // c147a
-  // c147b
-{ 152 : // c150
-Quote ,
-    // c152
-173 : // c154
-Cancel // c155
-, // c156a
-  // c156b
-4 // c157
-: // c158a
-  // c158b
-Leg
-    // c159
-,
-    // c160
-} // c161a
-  // c161b
-,
-    // c162
-u16 Ref @calculatedFrom( ""CRC32"" )
-    // c167
-, // c168a
-  // c168b
-}
-    // c169
-")).
-Eval vm_compute in ("<<<M1330>>>" ++ check (runes_of_ascii "// top
-packet // c0a
-  // c0b
-Frame // c1a
-  // c1b
-{ // c2a
-  // c2b
-u8 // c3
-HK // c4
-,
-    // c5
-u8
-    // c6
-BK // c7
-, // c8a
-  // c8b
-u8 // c9
-TK // c10
-, // c11a
-  // c11b
-match // c12
-HK as Hdr // c15a
-  // c15b
-{ // c16
-1
-    // c17
-:
-    // c18
-HdrA , 2 // c21
-:
-    // c22
-HdrB // c23
-, // c24a
-  // c24b
-} ,
-    // c26
-match
-    // c27
-BK as
-    // c29
-Body // c30
-{
-    // c31
-1 : // c33a
-  // c33b
-BodyA // c34
-,
-    // c35
-2 :
-    // c37
-BodyB , } // c40a
-  // c40b
-, // c41
-match // c42
-TK
-    // c43
-as // c44
-Trl // c45a
-  // c45b
-{ // c46a
-  // c46b
-1
-    // c47
-: // c48
-TrlA , // c50a
-  // c50b
-} // c51a
-  // c51b
-, // c52a
-  // c52b
-} // c53a
-  // c53b
-packet HdrA // c55
-{ u8 // c57
-a // c58a
-  // c58b
-, // c59
-} // c60
-packet // c61a
-  // c61b
-HdrB
-    // c62
-{ // c63a
-  // c63b
-u16
-    // c64
-b // c65
-, // c66
-} // c67
-packet // c68
-BodyA { // c70a
-  // c70b
-u32
-    // c71
-c // c72
-, } // c74
-packet
-    // c75
-BodyB {
-    // c77
-u64 // c78a
-  // c78b
-d // c79
-, // c80a
-  // c80b
-} // c81a
-  // c81b
-packet TrlA // c83a
-  // c83b
-{
-    // c84
-u8 e // c86
-,
-    // c87
-} // c88a
-  // c88b
-root // c89a
-  // c89b
-packet
-    // c90
-Msg
-    // c91
-{ Frame , // c94a
-  // c94b
-u8 // c95a
-  // c95b
-x // c96a
-  // c96b
-, // c97a
-  // c97b
-}
-    // c98
-")).
-Eval vm_compute in ("<<<M1644>>>" ++ check (runes_of_ascii "root packet metadata {
-    @lengthOf(options1)
-    int32 zchar @calculatedFrom(""// no comment"") `
-    `,
-    repeat calculatedFrom `it's`,//
-    match BodyLength as lengthOf {
-        3 : leftPad,
-    },
-    repeat u128,
-    char[10] chars,// @lengthOf(
-    falsey @calculatedFrom(""x y"") `{ , }`,
-    @tag(42)
-    float64 i64_,
-    u8x @calculatedFrom(""{,}"") `two words`,
-    @lengthOf(T)
-    char[255] pack `it's`,
-    match MetaDataX as i64_ {
-        //
-        """ ++ [28040; 24687]%N ++ runes_of_ascii """ : Header,
-        0 : x_y_z,
-        3 : int,
-        ""abc"" : u8x,
-    },
-}
-
-packet i64_ {
-    @rightPad()
-    /// triple
-    pack {
-        match MetaDataX as trueish {
-            1 : len,
-            00 : falsey,
-            """" : x,
-        },
-    },
-    @tag(1)
-    char[] int @lengthOf(metadata),
-    a1 @lengthOf(calculatedFrom),
-    @tag(7)
-    tag @lengthOf(u),
-    BodyLength @calculatedFrom(""it's"") `say ""hi""`,
-    string msg_type,
-}
-
-MetaData Logon {
-    BodyLength _x `it's`,
-    int32 body,
-    // trailing space 
-}
-
-root packet body {
-}")).
-Eval vm_compute in ("<<<M1353>>>" ++ check (runes_of_ascii "options {
-    StringPrefixLenType = u64;
-    ArrayPrefixLenType = u32;
-    FixedStringPadFromLeft = false;
-}
-packet Party {
-    zchar[7] OrderId,
-    InTail6 {
-        repeat char[1] msgKind,
-        char[3] Tail,
-        char[3] Flags,
-        i16 tag7,
-    },
-    @rightPad('0') char[12] clOrdID,
-}
-packet Quote {
-    @leftPad('0') char[11] price,
-    repeat InCount7 {
-        i32 x,
-        Party,
-        u8 Ref,
-        u8 tag7,
-    },
-    char[] seqNo,
-    Party,
-}
-packet Logon {
-    @rightPad('\x00') char[5] Note,
-    i16 sym,
-    InPrice72 {
-        char[9] Ref,
-        zchar[1] venue,
-    },
-    char[] clOrdID,
-}
-root packet Reject {
-    repeat Logon,
-    @leftPad(' ') char[4] seqNo,
-    zchar[5] Acct,
-    u32 x,
-    u16 f1 @lengthOf(Body),
-    match x as Body {
-        [169, 74] : Quote,
-        45 : Party,
-        7 : Logon,
-    },
-}
-")).
-Eval vm_compute in ("<<<M1602>>>" ++ check (runes_of_ascii "
-root packet  leftPad
-
-{ 
-@calculatedFrom(
-""" ++ [128512]%N ++ runes_of_ascii """
-)int64
-len `{ , }`
-,
-} packet
-u128 {	zchar[
-
-65535
-    ] chars
-
-    @calculatedFrom(""\" ++ [233]%N ++ runes_of_ascii """
-    ) ,
-@lengthOf(int
-    // packet A { u8 x, }
-// @lengthOf(
-)
-i64_
-	,
-	crc
-	{
-    match Z9_ as  Logon{
-	10 
-:
-    int ,
-
-[ 0
-	] 
-: u8x
-
-    , 
-
-// trailing space 
-    //x
-    	42 : 
-trueish ,	[ 
-""\" ++ [233]%N ++ runes_of_ascii """ ,	4294967296
-]
-	:
-	Z9_""\n""
-	:
-
-u128
-
-    ,}
-    ,
-    repeat	string_
-
 uint8x
-
-,
-	i8i8
-
-    ,match
-    u 
-as
-    body{
-	4294967296  : 
-        // " ++ [27880; 37322]%N ++ runes_of_ascii "
-	/// triple
-
-Z9_,  10
-: Z9_ ,
-
-[
-
-    """ ++ [128512]%N ++ runes_of_ascii """ ,
-""x y""
-
-]
-:
-	pack ,  }
-    , }
-
-    ,
-@tag(// " ++ [128512]%N ++ runes_of_ascii " emoji
-	0123456789
-	)  @lengthOf(
-
-    calculatedFrom
-    )	@leftPad(	'\x00'  // c
-    ) 
-zchar[
-3  ]T	,	match A
-
-    as  leftPad
-{
-
-[ """ ++ [28040; 24687]%N ++ runes_of_ascii """]	:
-	i64_""// no comment"": string_ ,} , }	// trailing space 
-")).
-Eval vm_compute in ("<<<M219>>>" ++ check (runes_of_ascii "
-packet
-falsey{ // `tick` ""quote"" 'q'
-repeat charz
-    /// triple
-    float // a // b
-`tab	here`
-    ,
-char[]stringy  , Logon
-    f32a,
-    char[] string_/// triple
-,
-int16
-_x
-`` ,
-    match/// triple
-crc as stringy { ""abc"" :Pad
-    [ ""\n"" , 10, 4294967296, 0123456789 , ""abc"" ,	""" ++ [28040; 24687]%N ++ runes_of_ascii """
-    ] :
-i8i8 , 10 :
-    //x
-    Header , 10:// c
-calculatedFrom
-    , 0123456789: charz
-10
-    :
-    repeatCount} ,
-    leftPad @lengthOf(
-u8x )  , @lengthOf(a1) repeat x body ,
-} MetaData
-string_
-{ float64  f32a	, zchar[
-255] T, u32 trueish, BodyLength roots
-`two words` , }
-// " ++ [128512]%N ++ runes_of_ascii " emoji
-//	t
-packet stringy{ zchar[
-    255
-    ]Foo ,
-}
-MetaData
-leftPad {
-    } //
-options { x //x
+    // c2
 =
-true
-    ;
-zchar = """" } //")).
-Eval vm_compute in ("<<<M1801>>>" ++ check (runes_of_ascii "MetaData packetx {
-    zchar[7] leftPad `// not a comment`,
-}
-
-packet i64_ {
-    @calculatedFrom("""")
-    // trailing space 
-    // c
-    @lengthOf(x_y_z)
-    @tag(00)
-    repeatCount @calculatedFrom(""1""),
-}
-
-packet falsey {
-    int16 _x @calculatedFrom(""it's""),
-}// @lengthOf(
-
-root packet matchKey {
-    repeat u32 Pad `" ++ [233]%N ++ runes_of_ascii "`,
-    zchar[7] leftPad,
-    match chars as lengthOf {
-        1 : o,
-        42 : chars,
-    },
-    repeat zchar[255] a1,
-    matchKey Packet,
-    f32 tag,
-    // @lengthOf(
-    // trailing space 
-    @calculatedFrom(""a\""b"")
-    @leftPad(' ')
-    @lengthOf(T)
-    stringy @lengthOf(o),
-    packetx i64_,
-}
-/// triple")).
-Eval vm_compute in ("<<<M1239>>>" ++ check (runes_of_ascii "// top
-options // c0
-{ // c1a
-  // c1b
-zchar // c2
-= // c3a
-  // c3b
-true // c4
-; Pad // c6a
-  // c6b
+    // c3
+007
+    // c4
+;
+    // c5
+lengthOf
+    // c6
 =
     // c7
-char[ 00 // c9a
-  // c9b
-]
-    // c10
-a1 = // c12a
-  // c12b
-uint32 // c13a
-  // c13b
-BodyLength = true // c16a
-  // c16b
+i8
+    // c8
 ;
-    // c17
-} root // c19
-packet // c20
-T // c21a
-  // c21b
-{
-    // c22
-@lengthOf( // c23a
-  // c23b
-repeatCount ) @tag( // c26a
-  // c26b
-1
-    // c27
-) // c28a
-  // c28b
-@calculatedFrom( // c29
-""a	b"" // c30a
-  // c30b
-) // c31a
-  // c31b
-string // c32
-stringy @calculatedFrom( ""\n"" ) // c36
-`u8 x,` // c37a
-  // c37b
-, // c38
-} // c39
-")).
-Eval vm_compute in ("<<<M1685>>>" ++ check (runes_of_ascii "options {
-    leftPad = 0;
-    //
-    Logon = char// `tick` ""quote"" 'q'
-    i64_ = '\x00';
+    // c9
 }
-
-options {
-    crc = i32;
-    matchKey = 255
-    leftPad = ' ';
-    metadata = 42;
-    packetx = 10
-}
-
-root packet A {
-    @calculatedFrom(""x y"")
-    /// triple
-    zchar[00] f32a,
-    @tag(255)
-    zchar[0123456789] a1 @lengthOf(As) `" ++ [28040; 24687; 31867; 22411]%N ++ runes_of_ascii "`,
-    int16 body,// `tick` ""quote"" 'q'
-    uint64 x @calculatedFrom(""1"") `line1
-        line2`,
-    @lengthOf(Logon)
-    char[0] float @calculatedFrom(""abc""),
-}
-
-MetaData u128 {
-}")).
-Eval vm_compute in ("<<<M133>>>" ++ check (runes_of_ascii "MetaData  falsey
-{ } root packet // `tick` ""quote"" 'q'
-o {@tag(3// " ++ [128512]%N ++ runes_of_ascii " emoji
-) @calculatedFrom( """") @lengthOf(
-    pack)char[ 65535
-    ]falsey
-    @lengthOf(falsey ) , }  root packet roots
-    {@lengthOf(
-chars )match Logon as chars{ ""`tick`"" :charz
-    // packet A { u8 x, }
-    ""a\\"" :Z9_ 007 : trueish ""CRC32"" :	msg_type , [
-3
-    ,3 // `tick` ""quote"" 'q'
-,
-00 ,4294967296 ,
-0
-,7 , //
-""x y"",""\" ++ [233]%N ++ runes_of_ascii """
-    //	t
-    ] : metadata ,""a	b""
-//x
-// " ++ [27880; 37322]%N ++ runes_of_ascii "
-:	crc } , }
-")).
-Eval vm_compute in ("<<<M1140>>>" ++ check (runes_of_ascii "// top
-MetaData
-    // c0
-leftPad // c1
-{
-    // c2
-chars // c3a
-  // c3b
-MetaDataX // c4
-, // c5a
-  // c5b
-} packet // c7a
-  // c7b
-repeatCount // c8
-{ char[
     // c10
-255 // c11a
-  // c11b
-] // c12a
-  // c12b
-uint8x
+packet
+    // c11
+i64_
+    // c12
+{
     // c13
-`" ++ [233]%N ++ runes_of_ascii "` // c14a
-  // c14b
-,
+@calculatedFrom(
+    // c14
+""1""
     // c15
-} // c16a
-  // c16b
-MetaData // c17a
-  // c17b
-pack // c18
-{ // c19a
-  // c19b
-As // c20a
-  // c20b
-Foo
+)
+    // c16
+@tag(
+    // c17
+3
+    // c18
+)
+    // c19
+@lengthOf(
+    // c20
+rootA
     // c21
-,
+)
     // c22
-} // c23a
-  // c23b
+repeat
+    // c23
+int8
+    // c24
+Packet
+    // c25
+`tab	here`
+    // c26
+,
+    // c27
+}
+    // c28
+packet
+    // c29
+_x
+    // c30
+{
+    // c31
+matchKey
+    // c32
+x
+    // c33
+`" ++ [28040; 24687; 31867; 22411]%N ++ runes_of_ascii "`
+    // c34
+,
+    // c35
+int32
+    // c36
+calculatedFrom
+    // c37
+`100% of %d`
+    // c38
+,
+    // c39
+@lengthOf(
+    // c40
+trueish
+    // c41
+)
+    // c42
+Packet
+    // c43
+,
+    // c44
+repeat
+    // c45
+f32
+    // c46
+o
+    // c47
+,
+    // c48
+}
+    // c49
 ")).
-Eval vm_compute in ("<<<M1807>>>" ++ check (runes_of_ascii "packet leftPad {
-    @tag(10)
-    @tag(007)
-    @lengthOf(a1)
-    // a // b
-    //
-    repeat metadata,
-}// " ++ [128512]%N ++ runes_of_ascii " emoji
-
+Eval vm_compute in ("<<<M1837>>>" ++ check (runes_of_ascii "
 options {
-    lengthOf = """ ++ [128512]%N ++ runes_of_ascii """;
+ArrayPrefixLenType
+=
+u32
+; 
+FixedStringPadFromLeft
+    =false  ;
+FixedStringPadChar	=
+
+'0'
+; }
+    packet Trade{ repeat
+
+InVenue78{
+u16
+tag7 , repeat
+
+InLastpx9	{  u8
+	pad0
+    ,
+    } ,
+    int64
+Tail  ,repeat
+InQty37 {
+    char[2  ] OrderId ,
+	zchar[
+	6
+] 
+lastPx
+    , int64	Qty
+,
+}, uint8
+Side2 ,}
+, }
+
+packet
+Logon { 
+repeat
+string
+venue,@rightPad
+
+(
+'\x00'	)
+char[ 3
+	]
+sym
+,
+    zchar[
+
+    9  ] count , zchar[ 7
+
+]	f1 ,
+Trade  ,
+	}	packet Logout
+
+{ }	root packet
+    Reject {
+int32 sym
+,u8
+Px  ,  u32
+Tail
+    @lengthOf(
+Body
+
+    ),
+
+match	Px 
+as Body { 184:
+
+Trade
+	,
+    173  : Logon
+
+    ,12 :	Logout  , }
+    ,
+u32 tag7 @calculatedFrom( ""CRC32""	)
+,
+}
+")).
+Eval vm_compute in ("<<<M1844>>>" ++ check (runes_of_ascii "  MetaData  trueish // " ++ [128512]%N ++ runes_of_ascii " emoji
+{ uint64
+Z9_
+`u8 x,` // packet A { u8 x, }
+
+, zchar[3  ]
+tag	,
+
+} root	packet  tag // " ++ [128512]%N ++ runes_of_ascii " emoji
+	{
+
+    Packet
+
+    chars, }packet
+	trueish
+    {
+@lengthOf(roots  ) string
+repeatCount
+	,
+	@calculatedFrom( ""1""  )	@leftPad// 50% %s
+	  ( '\x00' 
+)@tag(
+    3
+
+    ) 
+int16
+stringy
+, 
+    // `tick` ""quote"" 'q'
+@rightPad
+
+    ( 
+'0' )
+	@rightPad
+
+    ('\x00'
+
+    ) 
+
+    //
+
+// c
+    	@lengthOf(
+
+    x )repeat	trueish pack
+`a\`	, 
+len// " ++ [128512]%N ++ runes_of_ascii " emoji
+  ,
+    @tag( 
+3
+)  char
+
+packetx  ,	}// `tick` ""quote"" 'q'
+    packet u
+{  u64 options1	//	t
+
+  ,
+
+    } options {
+}
+")).
+Eval vm_compute in ("<<<M200>>>" ++ check (runes_of_ascii "packet charz {repeat i64_
+, trueish
+    {	repeat _x , repeatCount
+, repeat
+u16
+// " ++ [128512]%N ++ runes_of_ascii " emoji
+// a // b
+matchKey `
+` , trueish
+@lengthOf( Z9_)	,
+}
+, zchar[3
+    ]body	,
+    @rightPad // @lengthOf(
+(' ') body packetx `{ , }` , // packet A { u8 x, }
+repeat matchKey { uint8
+metadata
+    ``
+    // @lengthOf(
+    ,  trueish @calculatedFrom( ""abc"" )
+    ,
+}
+    , @lengthOf( packetx )	int32 uint8x`tab	here`,
+@rightPad//
+(
+) @rightPad ( ) f32a
+// " ++ [27880; 37322]%N ++ runes_of_ascii "
+// a // b
+,tag _x `a\` , } packet
+    a1 {
+@tag(4294967296 ) repeat
+    f32 a1 `line1
+line2` , }")).
+Eval vm_compute in ("<<<M142>>>" ++ check (runes_of_ascii "packet Header{ uint16 As @calculatedFrom(
+    ""CRC32"" )
+,float
+`doc`,char[	3
+] crc , //x
+repeat
+u32
+packetx , a1 @calculatedFrom(	""`tick`"") ,
+repeat rootA
+{
+    u8x
+`crlf
+line`
+, string x, }
+    , roots { char[	65535
+]len `100% of %d` // " ++ [27880; 37322]%N ++ runes_of_ascii "
+,u32	x_y_z
+,}
+    // @lengthOf(
+    ,
+    a1 { match zchar
+as
+len  {
+    ""a\""b"" : roots , }	,uint32
+i64_ `// not a comment`
+,
+    repeat	x_y_z {
+u@calculatedFrom("""") , Packet
+    { char[ 00 ]
+msg_type , } ,
+} ,} ,options1 i8i8
+, string calculatedFrom, }
+
+")).
+Eval vm_compute in ("<<<M1960>>>" ++ check (runes_of_ascii "packet body {
+    @leftPad('\x00')
+    @tag(42)
+    @tag(65535)
+    repeat tag u `a\`,
+    Z9_,//	t
+    @tag(10)
+    //	t
+    // @lengthOf(
+    f32 msg_type `// not a comment`,
+    int16 matchKey @calculatedFrom(""a	b"") `it's`,
 }
 
 packet T {
-    A {
-        //
-        // `tick` ""quote"" 'q'
-        tag @calculatedFrom(""abc""),
-    },
-    @lengthOf(matchKey)
-    string Header @lengthOf(metadata),
-    leftPad @calculatedFrom(""a\""b"") `crlf
-        line`,
+    zchar[7] matchKey,
+    falsey @lengthOf(stringy) `crlf
+    line`,
+}
+
+root packet options1 {
+    @calculatedFrom(""{,}"")
+    matchKey @calculatedFrom(""`tick`""),
+    zchar[0] stringy @lengthOf(int),
+}
+
+packet msg_type {
 }")).
-Eval vm_compute in ("<<<M1234>>>" ++ check (runes_of_ascii "// top
-options // c0
-{ // c1
-f32a // c2
-= // c3
-0 // c4
-} // c5
-packet // c6
-trueish // c7
-{ // c8
-} // c9
-MetaData // c10
-_x // c11
-{ // c12
-char[ // c13
-0123456789 // c14
-] // c15
-zchar // c16
-, // c17
-string // c18
-crc // c19
-, // c20
-char[ // c21
-1 // c22
-] // c23
-options1 // c24
-, // c25
-uint8 // c26
-repeatCount // c27
-, // c28
-} // c29
-")).
-Eval vm_compute in ("<<<M240>>>" ++ check (runes_of_ascii "
-packet BodyLength { repeatCount // packet A { u8 x, }
-`// not a comment`
+Eval vm_compute in ("<<<M1783>>>" ++ check (runes_of_ascii "options {
+    ArrayPrefixLenType = u64;
+    FixedStringPadFromLeft = true;
+    FixedStringPadChar = '0';
+}
+
+packet Order {
+}
+
+root packet Leg {
+    char[] Ref,
+    repeat Order,
+    f32 Acct,
+    @leftPad('0')
+    char[10] venue,
+    @rightPad('0')
+    char[3] seqNo,
+    repeat u64 Px,
+    u8 Flags,
+    u32 lastPx @lengthOf(Body),
+    match Flags as Body {
+        185 : Order,
+    },
+    u16 sym @calculatedFrom(""CRC32""),
+}")).
+Eval vm_compute in ("<<<M16>>>" ++ check (runes_of_ascii "packet pack {@rightPad (
+    '\x00' )	options1  ,repeat
+f32
+    Packet`u8 x,`
+, repeat  Logon { repeat
+    a1 {char[  0 ]
+    tag
 ,
-@lengthOf( lengthOf	)  @tag( 65535
-    )@rightPad (
-// @lengthOf(
-//	t
-'0' )/// triple
-u8 Logon , } packet chars { o msg_type , @tag( 10)zchar[ 65535
-] f32a
-,repeat char[]
-i64_
-`
-` ,} root packet f32a { @tag( 255 )repeat u8 stringy, }
+u64 leftPad,
+    } // 50% %s
+, repeatCount ,repeat // packet A { u8 x, }
+BodyLength /// triple
+, }
+    , repeat char[] packetx,
+char[
+00]tag@lengthOf(o
+) , }packet matchKey { repeat As	u8x `it's` , }options{}MetaData
+string_
+{ msg_type
+    Z9_ `line1
+line2` ,} //x")).
+Eval vm_compute in ("<<<M141>>>" ++ check (runes_of_ascii "packet
+string_ { @tag( 4294967296 ) repeat u	`crlf
+line`
+    , repeat zchar[ 0
+    ]BodyLength
+    , @tag( 255	) int  `say ""hi""` ,uint8x`u8 x,` ,@leftPad(' ' ) string
+MetaDataX @lengthOf(
+options1)
+, zchar[00 // packet A { u8 x, }
+]  charz  `" ++ [28040; 24687; 31867; 22411]%N ++ runes_of_ascii "` ,@calculatedFrom(
+""" ++ [128512]%N ++ runes_of_ascii """
+) _x calculatedFrom ,uint8 //
+packetx
+    `it's` ,@leftPad ( ) zchar[ 0 ] Foo
+`a\` ,
+}
 ")).
-Eval vm_compute in ("<<<M287>>>" ++ check (runes_of_ascii "root // trailing space 
-packet int {
-    f32a @calculatedFrom(""packet"" )
-    `
+Eval vm_compute in ("<<<M1953>>>" ++ check (runes_of_ascii "options {
+}
+
+root packet chars {
+    @rightPad('0')
+    chars f32a `say ""hi""`,
+    int16 u8x,
+    @tag(4294967296)
+    @rightPad()
+    u64 packetx @calculatedFrom(""it's""),
+    @calculatedFrom(""\n"")
+    o @calculatedFrom(""a\""b""),
+    Logon @lengthOf(BodyLength),
+}
+
+options {
+}
+
+MetaData zchar {
+    u64 MetaDataX `// not a comment`,
+}")).
+Eval vm_compute in ("<<<M1321>>>" ++ check (runes_of_ascii "
+
+  packet A{	u8  a,}	packet
+B {
+u16  b ,}
+
+packet
+
+C {  u32	c
+    ,
+} root
+packet M
+{	u16 
+Kc, u16 
+Kb,
+u16 Ka
+,
+
+    match Kc  as
+	X {	9 :
+A , 
+10 
+:
+
+    B , 
+}  , 
+match
+
+Kb	as
+
+    Y{ 2  : C
+
+    ,
+	1
+    :
+A ,}
+,
+	match Ka
+
+    as Z { 1
+:
+
+B,  },
+A
+, B,  C
+
+,
+	}")).
+Eval vm_compute in ("<<<M68>>>" ++ check (runes_of_ascii "// a // b
+root packet
+    u { f64 //
+chars	@calculatedFrom( ""\n"" )
+, @lengthOf(msg_type//
+)x_y_z
 `
-    , } options
-{
-    rootA
-    // @lengthOf(
-    =
-""\" ++ [233]%N ++ runes_of_ascii """; }
-    packet
-i8i8 {
-    // trailing space 
-    uint8
-    uint8x
-    @lengthOf( string_ ) //	t
-, i32 tag //	t
-@lengthOf(
-Logon )  , }")).
-Eval vm_compute in ("<<<M361>>>" ++ check (runes_of_ascii "MetaData BodyLength { uint16 leftPad `" ++ [233]%N ++ runes_of_ascii "` // a // b
-, uint8x asx,
-    len lengthOf `// not a comment` ,
-string uint8x `doc`
-, }options {i8i8 = 0
-lengthOf =
-    0123456789 ; } packet uint8x { @lengthOf(
-pack ) float64
-u8x@lengthOf(asx //x
-)
+`
+,
+// " ++ [27880; 37322]%N ++ runes_of_ascii "
+// `tick` ""quote"" 'q'
+repeat char[ 0123456789
+    ]f32a, repeat
+u8 u8x
+`u8 x,` , zchar[3	]
+// " ++ [128512]%N ++ runes_of_ascii " emoji
+// trailing space 
+x_y_z , x_y_z @lengthOf( len),}")).
+Eval vm_compute in ("<<<M417>>>" ++ check (runes_of_ascii "packet
+    asx { @calculatedFrom(
+""""  ) @tag( @tag( 255 )repeat
+// packet A { u8 x, }
+// trailing space 
+int16 u8x
+,
+@tag(
+    //
+    007 )
+    @tag( 0
+    /// triple
+    ) @tag( 1) u
+    @lengthOf( T ),
+// `tick` ""quote"" 'q'
+//x
+} // " ++ [128512]%N ++ runes_of_ascii " emoji")).
+Eval vm_compute in ("<<<M487>>>" ++ check (runes_of_ascii "packet
+    asx { @calculatedFrom(
+""""  ) @tag( 255 )repeat
+// packet A { u8 x, }
+// trailing space 
+int16 u8x
+,
+@tag(
+    //
+    007 )
+    @tag( 0
+    /// triple
+    ) @tag( 1 1) u
+    @lengthOf( T ),
+// `tick` ""quote"" 'q'
+//x
+} // " ++ [128512]%N ++ runes_of_ascii " emoji")).
+Eval vm_compute in ("<<<M433>>>" ++ check (runes_of_ascii "packet
+    asx { @calculatedFrom(
+""""  ) @tag( 255 )int16
+// packet A { u8 x, }
+// trailing space 
+repeat u8x
+,
+@tag(
+    //
+    007 )
+    @tag( 0
+    /// triple
+    ) @tag( 1) u
+    @lengthOf( T ),
+// `tick` ""quote"" 'q'
+//x
+} // " ++ [128512]%N ++ runes_of_ascii " emoji")).
+Eval vm_compute in ("<<<M426>>>" ++ check (runes_of_ascii "packet
+    asx { @calculatedFrom(
+""""  ) @tag( 255 repeat
+// packet A { u8 x, }
+// trailing space 
+int16 u8x
+,
+@tag(
+    //
+    007 )
+    @tag( 0
+    /// triple
+    ) @tag( 1) u
+    @lengthOf( T ),
+// `tick` ""quote"" 'q'
+//x
+} // " ++ [128512]%N ++ runes_of_ascii " emoji")).
+Eval vm_compute in ("<<<M1459>>>" ++ check (runes_of_ascii "// " ++ [27880; 37322]%N ++ runes_of_ascii "
+options {
+    calculatedFrom = '\x00'
+    packetx = """ ++ [28040; 24687]%N ++ runes_of_ascii """;
+    i8i8 = """ ++ [28040; 24687]%N ++ runes_of_ascii """;
+    body = '0'
+    falsey = 10
+}
+
+packet o {
+    calculatedFrom {
+        repeat zchar[0] a1,
+        char[] f32a `" ++ [28040; 24687; 31867; 22411]%N ++ runes_of_ascii "`,
+    },
+}// packet A { u8 x, }")).
+Eval vm_compute in ("<<<M1566>>>" ++ check (runes_of_ascii "packet Logon {
+    string user,
+}
+
+root packet Frame {
+    u8 K,
+    match K as Body {
+        1 : Logon,
+        2 : Logout,
+    },
+    Tail,
+}
+
+packet Logout {
+    u16 reason,
+}
+
+packet Tail {
+    u32 crc,
+}")).
+Eval vm_compute in ("<<<M227>>>" ++ check (runes_of_ascii "MetaData Header
+    // " ++ [128512]%N ++ runes_of_ascii " emoji
+    { trueish Pad ,
+} MetaData
+    Z9_ { char[] metadata , Header
+    A
+    ``, uint32 packetx, int16 uint8x ,
+    Header // packet A { u8 x, }
+leftPad , }
+")).
+Eval vm_compute in ("<<<M490>>>" ++ check (runes_of_ascii "packet
+    asx { @calculatedFrom(
+""""  ) @tag( 255 )repeat
+// packet A { u8 x, }
+// trailing space 
+int16 u8x
+,
+@tag(
+    //
+    007 )
+    @tag( 0
+    /// triple
+    ) @tag(")).
+Eval vm_compute in ("<<<M632>>>" ++ check (runes_of_ascii "MetaData u
+    { } MetaData o
+{ float uint8x
+`100% of %d` ,repeatCount u8x, string_ leftPad
+, i32 i32
+    Foo , int64 x `two words` , calculatedFrom
+stringy `a\` ,
+}
+")).
+Eval vm_compute in ("<<<M698>>>" ++ check (runes_of_ascii "MetaData u
+    { } MetaData o
+{ float uint8x
+`100% of %d` ,repeatCount u8x, string_ leftPad
+, i32
+    Foo , int64 x `two words` , calculatedFrom
+@xstringy `a\` ,
+}
+")).
+Eval vm_compute in ("<<<M609>>>" ++ check (runes_of_ascii "MetaData u
+    { } MetaData o
+{ float uint8x
+`100% of %d` ,repeatCount `
+`, string_ leftPad
+, i32
+    Foo , int64 x `two words` , calculatedFrom
+stringy `a\` ,
+}
+")).
+Eval vm_compute in ("<<<M674>>>" ++ check (runes_of_ascii "MetaData u
+    { } MetaData o
+{ float uint8x
+`100% of %d` ,repeatCount u8x, string_ leftPad
+, i32
+    Foo , int64 x `two words` , calculatedFrom
+packet `a\` ,
+}
+")).
+Eval vm_compute in ("<<<M1831>>>" ++ check (runes_of_ascii "MetaData crc {
+    packetx repeatCount,
+    f32a As `line1
+        line2`,
+    crc len `line1
+        line2`,
+    zchar[0123456789] uint8x,
+    zchar[0] As,
+}")).
+Eval vm_compute in ("<<<M60>>>" ++ check (runes_of_ascii "MetaData len{ }packet int
+    {
+repeat
+    char[1 ] stringy,}// a // b
+packet MetaDataX { zchar[
+10]
+leftPad
+@calculatedFrom( ""// no comment"" )
 , }
 ")).
-Eval vm_compute in ("<<<M1858>>>" ++ check (runes_of_ascii "packet matchKey {
-    // @lengthOf(
-    @lengthOf(a1)
-    string_ T `" ++ [28040; 24687; 31867; 22411]%N ++ runes_of_ascii "`,//
-}
+Eval vm_compute in ("<<<M1271>>>" ++ check (runes_of_ascii "  packet	B
+{u8
+    a 
+,  }  root packet
 
-packet body {
-    f32 _x,
-    packetx @lengthOf(options1) ``,
-    @leftPad(' ')
-    i16 crc,
-    @calculatedFrom(""" ++ [128512]%N ++ runes_of_ascii """)
-    Pad,
-}//")).
-Eval vm_compute in ("<<<M1332>>>" ++ check (runes_of_ascii "packet u128 {
-    u8 a,
-}
-root packet Msg {
-    u8 k,
-    u24 {
-        u8 Hi,
-        u16 Lo,
-    },
-    repeat i24 {
-        u32 q,
-    },
-    u128,
-    u16 float32x,
-    string s,
-}
-")).
-Eval vm_compute in ("<<<M1435>>>" ++ check (runes_of_ascii "// top
-packet Inner {
-    // c2
-    u8 a,
-    // c5
-}// c6
+    P{
+	u8
+	K ,u8 L
 
-root packet P {
-    // c10a
-    // c10b
-    repeat Inner items,// c14
-    u8 x,// c17a
-    // c17b
-}// c18")).
-Eval vm_compute in ("<<<M392>>>" ++ check (runes_of_ascii "packet packet uint8x
-{ match pack
-    as msg_type	{
-    0123456789 :	float
-}
+    @lengthOf(	Body )
 ,
-} packet //	t
-a1
-    { } options {packetx
-    = '\x00'	; u128= ""a	b""  ; }
-")).
-Eval vm_compute in ("<<<M552>>>" ++ check (runes_of_ascii "packet uint8x
-{ match pack
-    as msg_type	{
-    0123456789 :	float
+
+    match
+K 
+as 
+Body	{
+1
+
+:
+B	, }
+    ,
+} ")).
+Eval vm_compute in ("<<<M208>>>" ++ check (runes_of_ascii "MetaData uint8x{char msg_type `two words`, char[3 ] chars `say ""hi""`, zchar[
+007]
+zchar	,
+    // " ++ [128512]%N ++ runes_of_ascii " emoji
+    } // `tick` ""quote"" 'q'")).
+Eval vm_compute in ("<<<M1289>>>" ++ check (runes_of_ascii "
+options
+	{	LittleEndian
+	= true
+
+;
+
 }
-,
-} packet //	t
-na" ++ [239]%N ++ runes_of_ascii "ve
-    { } options {packetx
-    = '\x00'	; u128= ""a	b""  ; }
+root
+
+packet 
+P
+    {
+	u16
+a, u32 Sum
+
+    @calculatedFrom( ""CRC32""
+    ) 
+,	}
+
 ")).
-Eval vm_compute in ("<<<M539>>>" ++ check (runes_of_ascii "packet uint8x
-{ match pack
-    as msg_type	{
-    0123456789 :	float
+Eval vm_compute in ("<<<M256>>>" ++ check (runes_of_ascii "  packet u8x { } MetaData Pad { //
+trueish lengthOf // 50% %s
+,
+    }
+    root packet
+trueish {
+//
+// 50% %s
 }
-,
-} p" ++ [8232]%N ++ runes_of_ascii "acket //	t
-a1
-    { } options {packetx
-    = '\x00'	; u128= ""a	b""  ; }
 ")).
-Eval vm_compute in ("<<<M492>>>" ++ check (runes_of_ascii "packet uint8x
-{ match pack
-    as msg_type	{
-    0123456789 :	float
-}
-,
-} packet //	t
-a1
-    { } options {=
-    packetx '\x00'	; u128= ""a	b""  ; }
-")).
-Eval vm_compute in ("<<<M1749>>>" ++ check (runes_of_ascii "packet A {
-    match k as n {
-        [
-            ""a"", ""bb"", 007, ""d"", ""e"",
-            66, ""g"", ""h"", 9, ""j""
-        ] : B,
-        2 : C,
+Eval vm_compute in ("<<<M1225>>>" ++ check (runes_of_ascii "options { } options { MetaDataX = char ; } MetaData Pad // c
+{ i8 metadata , string stringy , int8 As `{ , }` , }")).
+Eval vm_compute in ("<<<M892>>>" ++ check (runes_of_ascii "packet A {
+  match k as n {
+    [""a"", ""bb"", ""c c"", ""d"", ""e"", ""f"", ""g"", ""h"", ""i"", ""j"", ""k""] : B
+    2 : C
+  },
+}")).
+Eval vm_compute in ("<<<M978>>>" ++ check (runes_of_ascii "packet A {
+    Inner {
+        u8 x `%%d%!`,
+        Deep {
+            u8 y `%%d%!`,
+        },
     },
 }")).
-Eval vm_compute in ("<<<M670>>>" ++ check (runes_of_ascii "// @lengthOf(
-packet i8i8 { u128 o , }
-options { MetaDataX = true;
-    BodyLength =""packet"" x_y_z= 007
-crc //x
-= ""abc"" ;
-    msg_type = =
-i16 }")).
-Eval vm_compute in ("<<<M679>>>" ++ check (runes_of_ascii "// @lengthOf(
-packet { i8i8 u128 o , }
-options { MetaDataX = true;
-    BodyLength =""packet"" x_y_z= 007
-crc //x
-= ""abc"" ;
-    msg_type =
-i16 }")).
-Eval vm_compute in ("<<<M669>>>" ++ check (runes_of_ascii "// @lengthOf(
-packet i8i8 {  o , }
-options { MetaDataX = true;
-    BodyLength =""packet"" x_y_z= 007
-crc //x
-= ""abc"" ;
-    msg_type =
-i16 }")).
-Eval vm_compute in ("<<<M1957>>>" ++ check (runes_of_ascii "MetaData leftPad  {chars MetaDataX,
-}  packet
-repeatCount { char[
-	255 ]uint8x
+Eval vm_compute in ("<<<M1782>>>" ++ check (runes_of_ascii "packet
+A{ match
+    k as n{
 
-    `" ++ [233]%N ++ runes_of_ascii "` , } MetaData  // c
-    pack {
-As	Foo ,
-	}
+[ 1	,
+22
+,
+	007
+
+    ,
+4 , 5
+, 66 
+,7
+
+    ]
+
+:
+
+B 2: 
+C
+    } ,}")).
+Eval vm_compute in ("<<<M881>>>" ++ check (runes_of_ascii "packet A {
+  match k as n {
+    [1, ""bb"", 007, ""d"", 5, ""f"", 7, ""h"", 9, ""j""] : B
+    2 : C
+  },
+}")).
+Eval vm_compute in ("<<<M1694>>>" ++ check (runes_of_ascii "
+// top
+
+options  // c0
+	{// c1
+
+  A // c2
+    =// c3
+  ""// no comment""	// c4
+    }	// c5
 ")).
-Eval vm_compute in ("<<<M1492>>>" ++ check (runes_of_ascii "
-packet
-
-    A
-
-    {	match k
-    as n
-{	[	""a""
-, ""bb""
-	,007	, ""d""
-    , ""e""
-,  66	,""g""
-
-,
-""h""
-,
-9
-    ]	: 
-B
-2
-:C} 
-,
-}
-")).
-Eval vm_compute in ("<<<M1142>>>" ++ check (runes_of_ascii "
-// c
-MetaData leftPad { chars MetaDataX , } packet repeatCount { char[ 255 ] uint8x `" ++ [233]%N ++ runes_of_ascii "` , } MetaData pack { As Foo , }")).
-Eval vm_compute in ("<<<M1166>>>" ++ check (runes_of_ascii "MetaData leftPad { chars MetaDataX , } packet repeatCount { char[ 255
-// c
-] uint8x `" ++ [233]%N ++ runes_of_ascii "` , } MetaData pack { As Foo , }")).
-Eval vm_compute in ("<<<M907>>>" ++ check (runes_of_ascii "packet A {
-  match k as n {
-    [""a"", ""bb"", ""c c"", ""d"", ""e"", ""f"", ""g"", ""h"", ""i"", ""j"", ""k"", ""l""] : B
-    2 : C
-  },
+Eval vm_compute in ("<<<M934>>>" ++ check (runes_of_ascii "packet A {
+    B b `a
+    b
+  c`,
+    B `a
+    b
+  c`,
+    repeat B bs `a
+    b
+  c`,
 }")).
-Eval vm_compute in ("<<<M910>>>" ++ check (runes_of_ascii "packet A {
-  match k as n {
-    [""a"", 22, ""c c"", 4, ""e"", 66, ""g"", 8, ""i"", 10, ""k"", 12] : B,
-    2 : C
-  },
-}")).
-Eval vm_compute in ("<<<M912>>>" ++ check (runes_of_ascii "packet A {
-  match k as n {
-    [1, 22, ""c c"", 4, 5, ""f"", 7, 8, ""i"", 10, 11, ""l""] : B,
-    2 : C
-  },
-}")).
-Eval vm_compute in ("<<<M620>>>" ++ check (runes_of_ascii "
-packet
-    asx {match u128 as lengthOf
-{
-//	t
-// `tick` ""quote"" 'q'
-255 : x ,
-    } @lengthOf(	}")).
-Eval vm_compute in ("<<<M573>>>" ++ check (runes_of_ascii "
-packet
-    asx {match u128 u128 as lengthOf
-{
-//	t
-// `tick` ""quote"" 'q'
-255 : x ,
-    } ,	}")).
-Eval vm_compute in ("<<<M474>>>" ++ check (runes_of_ascii "packet uint8x
-{ match pack
-    as msg_type	{
-    0123456789 :	float
-}
-,
-} packet //	t
-a1")).
-Eval vm_compute in ("<<<M858>>>" ++ check (runes_of_ascii "packet A {
-  match k as n {
-    [""a"", 22, ""c c"", 4, ""e"", 66, ""g"", 8] : B,
-    2 : C
-  },
-}")).
-Eval vm_compute in ("<<<M607>>>" ++ check (runes_of_ascii "
-packet
-    asx {match u128 as lengthOf
-{
-//	t
-// `tick` ""quote"" 'q'
-255 : x 
-    } ,	}")).
-Eval vm_compute in ("<<<M969>>>" ++ check (runes_of_ascii "packet A {
-    u32 crc @calculatedFrom(""x\
-y""),
-    @calculatedFrom(""x\
-y"") u8 y,
-}")).
-Eval vm_compute in ("<<<M748>>>" ++ check (runes_of_ascii "options match @lengthOf( options char[] zchar[ MetaData f32 f64 u16 ""{,}"" `doc` (")).
 Eval vm_compute in ("<<<M835>>>" ++ check (runes_of_ascii "packet A {
   match k as n {
-    [1, 22, ""c c"", 4, 5, ""f""] : B
+    [""a"", ""bb"", 007, ""d"", ""e"", 66] : B
     2 : C
   },
 }")).
-Eval vm_compute in ("<<<M67>>>" ++ check (runes_of_ascii "options { charz =""1"" _x= """ ++ [128512]%N ++ runes_of_ascii """ u = string ; stringy=
-""" ++ [28040; 24687]%N ++ runes_of_ascii """ }
-// @lengthOf(
+Eval vm_compute in ("<<<M1934>>>" ++ check (runes_of_ascii "options {
+    FixedStringPadFromLeft = true;
+}
+
+root packet P {
+    char[4] z,
+}")).
+Eval vm_compute in ("<<<M825>>>" ++ check (runes_of_ascii "packet A {
+  match k as n {
+    [1, 22, 007, 4, 5, 66] : B
+    2 : C
+  },
+}")).
+Eval vm_compute in ("<<<M349>>>" ++ check (runes_of_ascii "// `tick` ""quote"" 'q'
+options	{ stringy=""\" ++ [233]%N ++ runes_of_ascii """float= """ ++ [233]%N ++ runes_of_ascii "t" ++ [233]%N ++ runes_of_ascii """ trueish= u8 }
 ")).
-Eval vm_compute in ("<<<M800>>>" ++ check (runes_of_ascii "packet A {
+Eval vm_compute in ("<<<M794>>>" ++ check (runes_of_ascii "packet A {
   match k as n {
-    [1, 22, 007, 4] : B,
+    [1, 22, ""c c""] : B
     2 : C
   },
 }")).
-Eval vm_compute in ("<<<M838>>>" ++ check (runes_of_ascii "packet A { Inner { match k as n { [1,22,007,4,5,66] : B, }, }, }")).
-Eval vm_compute in ("<<<M779>>>" ++ check (runes_of_ascii "packet A {
+Eval vm_compute in ("<<<M783>>>" ++ check (runes_of_ascii "packet A {
   match k as n {
-    [1, 22] : B
+    [""a"", 22] : B
     2 : C
   },
 }")).
-Eval vm_compute in ("<<<M760>>>" ++ check (runes_of_ascii "MetaData @rightPad 3 i32 int32 ; int8 body ""a	b"" `" ++ [28040; 24687; 31867; 22411]%N ++ runes_of_ascii "`")).
-Eval vm_compute in ("<<<M1206>>>" ++ check (runes_of_ascii "packet body { i32
+Eval vm_compute in ("<<<M1544>>>" ++ check (runes_of_ascii "packet A {
+    match k as n {
+        [1, 2] : B,
+    },
+}")).
+Eval vm_compute in ("<<<M1097>>>" ++ check (runes_of_ascii "// a
+MetaData M {} // b
 // c
-f32a `{ , }` , } options { }")).
-Eval vm_compute in ("<<<M347>>>" ++ check (runes_of_ascii "packet As{
-/// triple
-// packet A { u8 x, }
-}
-
+MetaData N {} // d
+// e")).
+Eval vm_compute in ("<<<M41>>>" ++ check (runes_of_ascii "root
+packet
+msg_type
+    // 50% %s
+    {  }
 ")).
-Eval vm_compute in ("<<<M965>>>" ++ check (runes_of_ascii "options {
-    a = ""x\
-y"";
-    b = ""x\
-y""
+Eval vm_compute in ("<<<M1601>>>" ++ check (runes_of_ascii "// c
+options {
+    A = ""// no comment""
 }")).
-Eval vm_compute in ("<<<M274>>>" ++ check (runes_of_ascii "packet Z9_
-{ }
-    packet Pad { } 	 ")).
-Eval vm_compute in ("<<<M1736>>>" ++ check (runes_of_ascii "packet A {
-    @tag(1)
-    u8 x,
-}")).
-Eval vm_compute in ("<<<M36>>>" ++ check (runes_of_ascii "// c
-packet asx  {} /// triple")).
-Eval vm_compute in ("<<<M270>>>" ++ check (runes_of_ascii "  root packet msg_type
-{
-}
-")).
-Eval vm_compute in ("<<<M1507>>>" ++ check (runes_of_ascii "// c" ++ [8287]%N ++ runes_of_ascii "
+Eval vm_compute in ("<<<M204>>>" ++ check (runes_of_ascii "MetaData  matchKey
+{ char[] Foo , }")).
+Eval vm_compute in ("<<<M1971>>>" ++ check (runes_of_ascii "
+// c 	
     packet
-
 A
-{  }")).
-Eval vm_compute in ("<<<M1103>>>" ++ check (runes_of_ascii "// c
-MetaData tag { }")).
-Eval vm_compute in ("<<<M1483>>>" ++ check (runes_of_ascii "packet
+	{
 
-    o {}
+    }
+
 ")).
-Eval vm_compute in ("<<<M1037>>>" ++ check (runes_of_ascii "// c" ++ [12]%N ++ runes_of_ascii "
+Eval vm_compute in ("<<<M1600>>>" ++ check (runes_of_ascii "packet A {
+    u8 x `d `,// c 
+}")).
+Eval vm_compute in ("<<<M1095>>>" ++ check (runes_of_ascii "MetaData M {
+}// c
+packet A {}")).
+Eval vm_compute in ("<<<M1771>>>" ++ check (runes_of_ascii "
+// c" ++ [12]%N ++ runes_of_ascii "
+  packet
+    A
+	{ }")).
+Eval vm_compute in ("<<<M1495>>>" ++ check (runes_of_ascii "  packet  Packet  { }
+")).
+Eval vm_compute in ("<<<M1081>>>" ++ check (runes_of_ascii "// c x
 packet A {
 }")).
-Eval vm_compute in ("<<<M1034>>>" ++ check (runes_of_ascii "packet A {
-}// c" ++ [12]%N)).
-Eval vm_compute in ("<<<M99>>>" ++ check (runes_of_ascii "
- // " ++ [128512]%N ++ runes_of_ascii " emoji")).
-Eval vm_compute in ("<<<M980>>>" ++ check (runes_of_ascii "// c" ++ [12288]%N)).
-Eval vm_compute in ("<<<M745>>>" ++ check ([65533]%N ++ runes_of_ascii "1")).
+Eval vm_compute in ("<<<M1070>>>" ++ check (runes_of_ascii "packet A {
+}
+// c" ++ [65279]%N)).
+Eval vm_compute in ("<<<M1167>>>" ++ check (runes_of_ascii "packet // c
+x { }")).
+Eval vm_compute in ("<<<M1614>>>" ++ check (runes_of_ascii "packet A {
+}")).
+Eval vm_compute in ("<<<M1064>>>" ++ check (runes_of_ascii "// c" ++ [8203]%N)).
